@@ -1,10 +1,12 @@
 #!/bin/bash
 # Run every registered check once (tier from $1, default quick) on the current tree; summary in /verif/.cache/run_all.<tier>.log
+# The thorough tier writes its evidence to /verif/evidence/thorough/ so that /verif/evidence/<id>.json stays the quick-tier evidence.
 tier=${1:-quick}
 cd /verif
 out=/verif/.cache/run_all.$tier.log
 : > $out
-for id in $(python3 -c "import sys; sys.path.insert(0,'lib'); import registry; print(' '.join(sorted(registry.PROPS)))"); do
+if [ "$tier" = thorough ]; then mkdir -p /verif/evidence/thorough; export VERIF_EVIDENCE_DIR=/verif/evidence/thorough; fi
+for id in ${2:-$(python3 -c "import sys; sys.path.insert(0,'lib'); import registry; print(' '.join(sorted(registry.PROPS)))")}; do
   s=$(date +%s)
   ./check $id --tier $tier > /verif/.cache/run_all.$id.$tier.txt 2>&1
   rc=$?
